@@ -46,6 +46,7 @@ def main():
     chk = pid
     if "--with-check" in sys.argv:
         chk = sys.argv[sys.argv.index("--with-check") + 1]
+    helpers = []
     wt = "/tmp/evalwt_%s_%s" % (pid, x)
     sh(["git", "-C", "/repo", "worktree", "remove", "--force", wt])
     shutil.rmtree(wt, ignore_errors=True)
@@ -56,6 +57,11 @@ def main():
     try:
         os.makedirs(wt + "/_seed", exist_ok=True)
         shutil.copy(demo, wt + "/_seed/demo.py")
+        # helper modules a demonstration imports (anything but the demos and patches themselves)
+        helpers = [f for f in os.listdir(src) if f.endswith(".py") and not f.startswith(("demo", "_body"))
+                   and f != "demo.py"]
+        for f in helpers:
+            shutil.copy(os.path.join(src, f), wt + "/_seed/" + f)
         rc0, out0 = sh(["/venv/bin/python", "_seed/demo.py"], cwd=wt, env=env, timeout=600)
         meta["demo_without_change_exit"] = rc0
         rc, out = sh(["git", "-C", wt, "apply", patch])
@@ -124,6 +130,9 @@ def main():
         if os.path.abspath(patch) != os.path.abspath(os.path.join(d, "patch.diff")):
             shutil.copy(patch, os.path.join(d, "patch.diff"))
             shutil.copy(demo, os.path.join(d, "demo.py"))
+        for f in helpers:
+            if os.path.abspath(os.path.join(src, f)) != os.path.abspath(os.path.join(d, f)):
+                shutil.copy(os.path.join(src, f), os.path.join(d, f))
         mpath = os.path.join(d, "meta.json")
         old = json.load(open(mpath)) if os.path.exists(mpath) else {}
         old.update(meta)
